@@ -137,7 +137,23 @@ pub fn gen_edit(s: &mut Src, text: &str, donor: &str) -> Edit {
                 let at = toks[s.below(toks.len())].range.start;
                 Edit { range: at..at, text: format!(" {} ", piece) }
             }
-            _ => Edit { range: tr.clone(), text: text[tr].to_string() },
+            _ => {
+                // move the end of a comment: its line feed becomes a blank (the next line is
+                // swallowed), or a line feed is put into it (its rest becomes code)
+                let comments: Vec<&crate::reflex::RTok> = toks.iter().filter(|t| t.is_comment()).collect();
+                if comments.is_empty() {
+                    Edit { range: tr.clone(), text: text[tr].to_string() }
+                } else {
+                    let c = comments[s.below(comments.len())];
+                    if s.chance(1, 2) && c.range.end < text.len() {
+                        Edit { range: c.range.end..c.range.end + 1, text: " ".to_string() }
+                    } else {
+                        let b: Vec<usize> = (c.range.start + 2..=c.range.end).filter(|o| text.is_char_boundary(*o)).collect();
+                        let at = b[s.below(b.len())];
+                        Edit { range: at..at, text: "\n".to_string() }
+                    }
+                }
+            }
         };
     }
     let ai = s.below(b.len());
